@@ -28,9 +28,9 @@ pub enum DecimalParser {
 impl DecimalParser {
     pub fn new(precision: u8, scale: i8, truncated: bool) -> Self {
         if scale <= 0 && !truncated {
-            Self::IntegerOnly(precision as usize, -scale as usize)
+            Self::IntegerOnly(precision as usize, scale.unsigned_abs() as usize)
         } else if scale < 0 {
-            Self::IntegerOnlyTruncated(precision as usize, -scale as usize)
+            Self::IntegerOnlyTruncated(precision as usize, scale.unsigned_abs() as usize)
         } else if (scale as usize) < (precision as usize) && !truncated {
             Self::Mixed(precision as usize, scale as usize)
         } else if (scale as usize) < (precision as usize) {
@@ -372,7 +372,7 @@ pub fn format_decimal(buffer: &mut [u8], val: i128, scale: i8) -> &str {
     } else if scale < 0 && val == 0 {
         b"0"
     } else if scale < 0 {
-        let scale = -scale as usize;
+        let scale = scale.unsigned_abs() as usize;
         let num_bytes_written = write_val(buffer, val);
 
         buffer[num_bytes_written..][..scale].fill(b'0');
